@@ -55,7 +55,7 @@ TopLevel == {"macros", "moleculetype"}
 
 \* the columns (1-based) of a line with n columns that are atoms; SHORT when a fixed column is missing
 FixedCols == [bonds |-> 2, angles |-> 3, dihedrals |-> 4, constraints |-> 2, pairs |-> 2, pairs_nb |-> 2,
-              position_restraints |-> 1, virtual_sites1 |-> 1, virtual_sites2 |-> 3, virtual_sites3 |-> 4, settles |-> 1,
+              position_restraints |-> 1, virtual_sites1 |-> 2, virtual_sites2 |-> 3, virtual_sites3 |-> 4, settles |-> 1,
               distance_restraints |-> 2, orientation_restraints |-> 2, angle_restraints_z |-> 2]
 Min(a, b) == IF a < b THEN a ELSE b
 SHORT == [short |-> TRUE, cols |-> <<>>]
